@@ -12,6 +12,9 @@ CTX = {}
 
 
 def gen_case(rng):
+    if rng.random() < 0.08:
+        return {'kind': 'emitleak', 'mode': 'timevar', 'start': rng.choice([10, 0, 100]), 'ticks': rng.choice([3, 4]),
+                'flagged': rng.random() < 0.7}
     if rng.random() < 0.12:
         return {'kind': 'emitleak', 'mode': 'schemaless', 'at': rng.choice([1, 2]), 'ticks': rng.choice([3, 4]),
                 'state': rng.choice(['hello', 5, 0])}
@@ -33,6 +36,9 @@ def corpus():
             {'kind': 'emitleak', 'order': 'over-first', 'late': False, 'ticks': 2, 'via': 'reuse'},
             # a variable without any schema (created by `_add` into a store that has no glob schema) is not flagged
             {'kind': 'emitleak', 'mode': 'schemaless', 'at': 1, 'ticks': 3, 'state': 'hello'},
+            # a flagged variable at the top of the hierarchy is called `time`: every row is still keyed by the time of
+            # its snapshot
+            {'kind': 'emitleak', 'mode': 'timevar', 'start': 10, 'ticks': 3, 'flagged': True},
             # two glob declarations on one store flag different variables below the same nested key
             {'kind': 'emitleak', 'mode': 'globs', 'order': 'mass-first', 'late': True, 'ticks': 3, 'depth': 1},
             {'kind': 'emitleak', 'mode': 'globs', 'order': 'volume-first', 'late': False, 'ticks': 2, 'depth': 2}]
@@ -63,6 +69,28 @@ def _run_schemaless(case):
         eng.update(case['ticks'])
         obs['rows'] = [[float(t), r] for t, r in sorted(eng.emitter.get_data().items())]
         obs['held'] = sorted((eng.state.get_value().get('s') or {}).keys())
+    except Exception as e:  # noqa
+        obs['raised'] = f'{type(e).__name__}: {str(e)[:200]}'
+    return obs
+
+
+def _run_timevar(case):
+    from vivarium.core.engine import Engine
+    from vivarium.core.process import Process
+
+    class Countdown(Process):
+        def ports_schema(self):
+            return {'top': {'time': {'_default': case['start'], '_emit': case['flagged']},
+                            'n': {'_default': 0, '_emit': True}}}
+
+        def next_update(self, timestep, states):
+            return {'top': {'time': -1, 'n': 1}}
+    obs = {}
+    try:
+        eng = Engine(processes={'countdown': Countdown()}, topology={'countdown': {'top': ()}}, display_info=False,
+                     progress_bar=False)
+        eng.update(case['ticks'])
+        obs['rows'] = [[float(t), r.get('n')] for t, r in sorted(eng.emitter.get_data().items())]
     except Exception as e:  # noqa
         obs['raised'] = f'{type(e).__name__}: {str(e)[:200]}'
     return obs
@@ -108,6 +136,8 @@ def run_impl(case):
     from vivarium.core.process import Process
     from vivarium.core.emitter import Emitter
     from vivarium.core.registry import emitter_registry
+    if case.get('mode') == 'timevar':
+        return _run_timevar(case)
     key = f'el-{next(_ids)}'
     rows = []
     CTX[key] = rows
@@ -207,6 +237,13 @@ def oracle(case, impl):
         return []
     if impl.get('raised'):
         return [f'engine-raised: {impl["raised"]}']
+    if case.get('mode') == 'timevar':
+        want = [[float(t), t] for t in range(case['ticks'] + 1)]
+        if impl['rows'] != want:
+            return [f'row-times: a top-level variable is called `time` (starting at {case["start"]}, '
+                    f'{"flagged" if case["flagged"] else "not flagged"}): the rows are keyed {impl["rows"]} (time, n); '
+                    f'every row is keyed by the time of its snapshot: {want}']
+        return []
     if case.get('mode') == 'schemaless':
         for t, row in impl['rows']:
             want = {'s': {'a': 1.0 + t}}
